@@ -16,8 +16,16 @@ for mf in sorted(glob.glob(os.path.join(V, "seeded", "*", "meta.json"))):
             mm = re.search(r"# (.*)$", c["first"][0])
             key = (mm.group(1) if mm else "")[:110]
             break
-    rows.append((m["name"], first[:150], "yes" if m.get("valid") else "NO", "yes" if m.get("tests_ok") else ("?" if "tests_ok" not in m else "no"), "**caught**" if m.get("detected") else "missed", res, key))
-print("| Seeded change | What it does (author's notes) | demo fails only with it | stable tests pass | Verdict | Check result | First violation key |")
-print("|---|---|---|---|---|---|---|")
+    hist = [e.get("detected") for e in m.get("earlier_runs", [])]
+    first_try = "first run" if not hist or hist[0] else ("missed at first; caught after the check was strengthened" if m.get("detected") else "missed")
+    if m.get("detected") and hist and not hist[0]:
+        first_try = "missed at first; caught after the check was strengthened"
+    elif m.get("detected"):
+        first_try = "caught as delivered" if (not hist or all(hist)) else "caught (an intermediate run missed it)"
+    else:
+        first_try = "missed"
+    rows.append((m["name"], first[:150].replace("|", "\\|"), "yes" if m.get("valid") else "NO", "yes" if m.get("tests_ok") else ("?" if "tests_ok" not in m else "no"), "**caught**" if m.get("detected") else "missed", first_try, res.replace("|", "\\|"), key.replace("|", "\\|")))
+print("| Seeded change | What it does (author's notes) | demo fails only with it | stable tests pass | Verdict | History | Check result (tier " + "quick unless noted) | First violation key |")
+print("|---|---|---|---|---|---|---|---|")
 for r in rows:
     print("| " + " | ".join(r) + " |")
